@@ -5,7 +5,9 @@
 //   failed command -> nothing changed at all;  keep-tree switch -> the log of `old` is now the log of `new`, nothing under `old`;
 //   forced switch -> nothing pending under `old`, nothing new under `new`;  path checkout / stash push -> exactly the selected
 //   files' entries gone from the log of HEAD, everything else as it was;  pop / apply -> the stashed files' lines in the INITIAL of
-//   the CURRENT head.  Inputs of the named deviation classes (REPORT.md F1..F8) are skipped unless SWITCHHOOKS_STRICT=1.
+//   the CURRENT head.  The repaired findings F1 (paths without `--`), F3 (forced, HEAD unmoved), F4 (`.`), F5 (last pending file
+//   removed) are part of the STANDING sweep; inputs of the remaining deviation classes (REPORT.md: F2, F6, F7, F8, stash `.`,
+//   forced + bare paths) are skipped unless SWITCHHOOKS_STRICT=1.
 #![allow(dead_code, unused)]
 use std::collections::{HashMap, HashSet, BTreeMap, BTreeSet};
 use std::cell::RefCell;
@@ -43,9 +45,12 @@ impl Repository {
         if self.pre_command_base_commit.is_some() || self.pre_command_refname.is_some() { return; }
         if let Some(h) = w(|x| x.head.clone()) { self.pre_command_base_commit = Some(h); self.pre_command_refname = Some("refs/heads/x".into()); }
     }
+    /// `git rev-parse --verify`: the names that are revisions in the modelled repository
+    pub fn revparse_single(&self, spec: &str) -> Result<(), GitAiError> { if ["HEAD", "main", "other", "HEAD~1"].contains(&spec) { Ok(()) } else { Err(GitAiError::Generic("not a revision".into())) } }
     pub fn get_staged_and_unstaged_filenames(&self) -> Result<HashSet<String>, GitAiError> { Ok(if w(|x| x.dirty) { ["f.txt".to_string()].into_iter().collect() } else { HashSet::new() }) }
 }
 pub struct InitialFile { base: String }
+impl InitialFile { pub fn exists(&self) -> bool { w(|x| x.logs.get(&self.base).map(|l| l.initial.is_some()).unwrap_or(false)) } }
 pub struct PersistedWorkingLog { pub initial_file: InitialFile, pub base_commit: String }
 impl RepoStorage {
     pub fn working_log_for_base_commit(&self, sha: &str) -> PersistedWorkingLog { PersistedWorkingLog { initial_file: InitialFile { base: sha.to_string() }, base_commit: sha.to_string() } }
@@ -185,11 +190,8 @@ fn chk_switch(c: &mut Ctx, s: &Sw) {
     let forced = s.force != 0; let merged = s.merge != 0;
     // ---- deviation classes (REPORT.md)
     let dev: Option<&str> = if !s.ok { None }
-        else if path_mode && !s.sep { Some("dev_paths_without_sep") }
-        else if path_mode && s.paths.iter().any(|p| p == ".") { Some("dev_dot_pathspec") }
-        else if path_mode && { let b = pending(Some(&mk_wl(s.ini, s.cp))); b.iter().any(|(_, v)| !v.0.is_empty()) && b.iter().all(|(f, v)| v.0.is_empty() || git_selects(&s.paths, f)) } { Some("dev_empty_write") }
+        else if path_mode && !s.sep && (s.force == 1 || s.force == 2) { Some("dev_force_bare_paths") }
         else if !path_mode && (s.force >= (if s.switch_cmd { 4 } else { 3 }) || s.merge == 3) { Some("dev_spelling") }
-        else if !path_mode && forced && s.target != 1 { Some("dev_force_same_head") }
         else { None };
     if dev.is_some() && !c.strict { return; }
     c.evaluated += 1;
@@ -266,9 +268,8 @@ fn chk_stash(c: &mut Ctx, s: &St) {
     let selected: Vec<String> = b_head.keys().filter(|f| s.paths.is_empty() || git_selects(&s.paths, f)).cloned().collect();
     let dev: Option<&str> = if !s.ok { None }
         else if kind == "push" && (s.form == 8 || s.form == 9) { Some("dev_stash_sub") }
-        else if kind == "push" && s.paths.iter().any(|p| p == ".") { Some("dev_dot_pathspec") }
+        else if kind == "push" && s.paths.iter().any(|p| p == ".") { Some("dev_stash_dot_pathspec") }
         else if kind == "push" && selected.iter().any(|f| b_head[f].1 > 0) { Some("dev_stash_checkpoints") }
-        else if kind == "push" && !selected.is_empty() && b_head.iter().all(|(f, v)| v.0.is_empty() || selected.contains(f)) && b_head.iter().any(|(_, v)| !v.0.is_empty()) { Some("dev_empty_write") }
         else if kind != "push" && kind != "none" && s.other_ini != 0 { Some("dev_pop_overwrites_initial") }
         else { None };
     if dev.is_some() && !c.strict { return; }
